@@ -111,7 +111,7 @@ func ruleAPIParametersCarryKey(c *Ctx, rule string) {
 				if !ok || !isNamed(al.Type().Underlying().(*types.Pointer).Elem(), pkgCommand, "Parameters") {
 					continue
 				}
-				stores, keyed := 0, false
+				stores, keyed, fromQuery := 0, false, false
 				for _, r := range *al.Referrers() {
 					fa, ok := r.(*ssa.FieldAddr)
 					if !ok {
@@ -123,6 +123,13 @@ func ruleAPIParametersCarryKey(c *Ctx, rule string) {
 							if sameField(fieldOfAddr(fa), fIK) {
 								if _, isConst := st.Val.(*ssa.Const); !isConst {
 									keyed = true
+								}
+								// from the request: a header, or the key the bulk element carries — not a query parameter
+								for _, r := range roots(st.Val, nil) {
+									if call, ok := r.(*ssa.Call); ok && strings.HasSuffix(calleeFullName(call), "url.Values).Get") {
+										keyed = false
+										fromQuery = true
+									}
 								}
 							}
 						}
@@ -137,6 +144,8 @@ func ruleAPIParametersCarryKey(c *Ctx, rule string) {
 				key := fmt.Sprintf("%s:parameters#%d:carry-the-idempotency-key", fnName(fn), k)
 				if keyed {
 					c.ok(rule, key, al.Pos(), "Parameters.IdempotencyKey is filled from the request")
+				} else if fromQuery {
+					c.bad(rule, key, al.Pos(), "the idempotency key is read from the URL query instead of the Idempotency-Key header: clients that send the documented header get no idempotency")
 				} else {
 					c.bad(rule, key, al.Pos(), "a command.Parameters is built for a request without its idempotency key: the write is neither looked up nor recorded under the key, a retry executes it again")
 				}
